@@ -42,7 +42,7 @@ MONO = {'SIR_homogeneous_meanfield_from_graph', 'SIR_homogeneous_pairwise_from_g
 
 def functions():
     import EoN.analytic as an
-    return [getattr(an, n) for n in dir(an) if (n.startswith('_d') or n.endswith('_from_graph') or n.startswith('_get_') or n.startswith('_count')
+    return [getattr(an, n) for n in dir(an) if (n.startswith('_d') or n.endswith('_from_graph') or n.endswith('uniform_introduction') or n == '_my_odeint_' or n.startswith('_get_') or n.startswith('_count')
                                                 or n.startswith('_initialize') or n in NODE + NODE_PURE) and callable(getattr(an, n))]
 
 
@@ -99,6 +99,12 @@ def configs(tier):
                         out.append(dict(entry=entry, graph=g, ic=kind, I0=I0, R0=R0, full=full, weighted=weighted,
                                         tags=[entry, g, kind, 'full' if full else 'plain'] + (['R0'] if R0 else []) + (['weighted'] if weighted else [])
                                         + (['no-susceptible-stub'] if kind == 'sets' and _no_susceptible_stub(g, I0, R0) else [])))
+    # edge-based models with a uniformly random introduction given by generating functions (no graph argument)
+    for pk in ({1: '1/2', 3: '1/2'}, {0: '1/4', 2: '3/4'}):
+        for entry in ('EBCM_uniform_introduction', 'EBCM_discrete_uniform_introduction'):
+            for full in (False, True):
+                out.append(dict(entry=entry, family='uniform', graph='P3', Pk=pk, ic='rho', I0=None, R0=None, full=full, weighted=False,
+                                tags=[entry, 'uniform', 'full' if full else 'plain']))
     # discrete-time edge-based wrappers (no integrator: the iteration itself runs on symbolic p, rho)
     for g in gl:
         n = graphs.ALL[g][0]
@@ -279,9 +285,60 @@ def _run_discrete(h, cfg, eng, EoN):
     return None
 
 
+def _run_uniform(h, cfg, eng, EoN, flow):
+    entry = cfg['entry']
+    Pk = {int(k): Fraction(v) for k, v in cfg['Pk'].items()}
+    N = 100
+    rho = eng.real('rho', lo=0, hi=1, lo_strict=True, hi_strict=True)
+    psi = lambda x: sum(Pk[k] * x ** k for k in Pk)
+    psiP = lambda x: sum(k * Pk[k] * x ** (k - 1) for k in Pk if k > 0)
+    if 'discrete' in entry:
+        p = eng.real('p', lo=0, hi=1, lo_strict=True, hi_strict=True)
+        steps = 3
+        ret = h.call_must_succeed('accepted', getattr(EoN, entry), N, psi, psiP, p, rho, tmax=steps, return_full_data=cfg['full'])
+        want_t = list(range(steps + 1))
+    else:
+        tau = eng.real('tau', lo=0, lo_strict=True)
+        gamma = eng.real('gamma', lo=0, lo_strict=True)
+        tmin, tmax = eng.real('tmin'), eng.real('tmax')
+        eng.assume(lift(tmax) > lift(tmin))
+        ret = h.call_must_succeed('accepted', getattr(EoN, entry), N, psi, psiP, tau, gamma, rho, tmin=tmin, tmax=tmax, tcount=3, return_full_data=cfg['full'])
+        want_t = [tmin + (tmax - tmin) * Fraction(i, 2) for i in range(3)]
+    if ret is None:
+        return None
+    h.require('accepted', True)
+    if len(ret) != (5 if cfg['full'] else 4):
+        h.fail('return-shape', {'got': len(ret)})
+        return None
+    t, S, I, R = [list(x) for x in ret[:4]]
+    if len(t) != len(want_t):
+        h.fail('times=linspace', {'len': len(t), 'expected': len(want_t)})
+        return None
+    for i, (a, b) in enumerate(zip(t, want_t)):
+        h.require('times=linspace', EQ(a, b), {'i': i, 'got': show(a)})
+    for c, arr, want in (('S', S, (1 - rho) * N), ('I', I, rho * N), ('R', R, 0)):
+        h.require('row0', EQ(arr[0], want), {'series': c, 'got': show(arr[0]), 'want': show(want)})
+    if 'discrete' not in entry and flow.calls:
+        h.require('integrator-starts-at-tmin', EQ(list(flow.calls[0].times)[0], tmin), {'started_at': show(list(flow.calls[0].times)[0])})
+    prover = odex.IdProver(list(eng.pc))
+    for i in range(len(t)):
+        ok, m = prover.equal(S[i] + I[i] + R[i], N)
+        if not ok:
+            h.record_failure('conservation', {'step': i}, odex.model_values(m))
+            break
+    else:
+        h.require('conservation', True)
+    if cfg['full']:
+        th = list(np.asarray(ret[4], dtype=object).reshape(-1))
+        h.require('full-data-row0', EQ(th[0], 1), {'series': 'theta', 'got': show(th[0])})
+    return None
+
+
 def _run(h, cfg, eng, EoN, an, flow):
     if cfg.get('family') == 'discrete':
         return _run_discrete(h, cfg, eng, EoN)
+    if cfg.get('family') == 'uniform':
+        return _run_uniform(h, cfg, eng, EoN, flow)
     entry = cfg['entry']
     G = graphs.make(cfg['graph'])
     N = G.order()
